@@ -15,5 +15,8 @@ INVARIANT TimesThree
 INVARIANT BaseConstant
 INVARIANT RestoreReturnsPrevious
 INVARIANT EdgesRoundTrip
+INVARIANT EdgesScaleRoundTrip
+INVARIANT AddEdgesClearsFlags
+INVARIANT HalvesCombine
 INVARIANT EdgeCopiesAreHalves
 CHECK_DEADLOCK FALSE
